@@ -322,6 +322,62 @@ for _p, _a in _ADD.items():
             _c[_k[:-1]] = _c.get(_k[:-1], "") + _v
         else:
             _c[_k] = _v
+# ---- additions of the second build round ----------------------------------------------------------------------------------------
+_ADD2 = {
+    "C01": {"text+": " No template interpolates inside a hand-written triple-quoted string (every docstring that carries document "
+                     "text is the output of safe_docstring); classes never share a models module, operations of one tag never "
+                     "share an endpoint module (repaired defects, under contract)."},
+    "C03": {"text+": " Generated client.py: the httpx getters of AuthenticatedClient / Client build exactly one client whose "
+                     "headers carry the current credential under the current header name. Endpoint.sort_parameters for 0-2 "
+                     "placeholders x 0-2 parameters with any names. Project.build: every api/<tag>/<module>.py holds the "
+                     "rendering of its own operation (two / three tags, multi-tag operations). Secured operations demand an "
+                     "AuthenticatedClient (signatures of the four entry points).",
+            "note+": " (sort_parameters now has a fixed-shape contract for the matching of placeholders and parameters; the text "
+                     "rewriting of the path stays with the schematic operations.)"},
+    "C04": {"text+": " Explicit status codes listed after a range key (2XX) are decoded as documented whether or not the generator "
+                     "supports range keys."},
+    "C05": {"text+": " Static obligation: no interpolation inside hand-written docstrings; double-quote probe over four metadata "
+                     "flavours (python compiled, TOML parsed)."},
+    "C06": {"text+": " The top of the call chain: _process_config (contradictory sources / unknown codec => exit 1), "
+                     "_get_project_for_url_or_path and generate (a rejected document never reaches Project.build), cli.generate, "
+                     "_get_document for path sources (the file system may refuse), convert_value of the enum kinds for any JSON "
+                     "value (python's hashing rules)."},
+    "C07": {"text+": " One endpoint per module name and tag (inductive ghost state in EndpointCollection.from_data), classes never "
+                     "share a models module (Schemas.module_name_taken, inductive over the class table), Project.build writes "
+                     "every operation's own rendering."},
+    "C08": {"text+": " Endpoint.add_parameters never parses a path-item parameter the operation overrides (inductive); composing a "
+                     "model never edits the model it is composed of (_process_properties on a reference member + inline member + "
+                     "own properties)."},
+    "C09": {"text+": " Modules: Schemas.module_name_taken (inductive, any table) and its use by the three builders; one tag's "
+                     "operations: one endpoint per PythonIdentifier(name) and tag (both EndpointCollection.from_data contracts)."},
+    "C10": {"text+": " Parser side of `required`: the allOf walk of _process_properties (own and inline-member properties are "
+                     "required iff some member lists them)."},
+    "C12": {"text+": " Frame clauses that rule out order leaks: composing never edits the parent, the multipart mark of a shared "
+                     "body model is sticky, ListProperty.build leaves the document's schema unchanged, every union member is "
+                     "built once; sort keys / jinja sort filters that can tie on set elements are refuted."},
+    "C13": {"text+": " convert_value of EnumProperty / LiteralEnumProperty for any JSON value; the enum builders store the "
+                     "conversion of this schema's own default."},
+    "C14": {"text+": " Generated decoders reject every unlisted JSON scalar (string, integer, number; boolean for string lists), "
+                     "not only strings; union member attempts catch every exception."},
+    "C15": {"text+": " The allOf walk itself: _process_properties with its real closure on a composition of a reference member, "
+                     "an inline member and own properties, every subset of the required lists, both member orders."},
+    "C16": {"text+": " cli._process_config (the configuration file is read by its path and nothing else), the call chain "
+                     "cli.generate -> generate -> Project, Project.build own-rendering clause, content_type_overrides on the "
+                     "generated code (request and response media types behave as mapped, requests are announced as themselves)."},
+    "C17": {"text+": " List / union builders build every member schema exactly once (none merged before it is resolved); the "
+                     "dispatch shapes carry pydantic's model_fields_set."},
+    "C18": {"text+": " Names are also tried next to JSON-array, multipart and form bodies; and for every name the templates "
+                     "DERIVE from a property's own name (patterns read off the generated code on every run) a sibling property "
+                     "spelled like it must not change behaviour (one known finding: <name>_item / <name>_item_data)."},
+    "C19": {"text+": " Every file a fresh generation creates is rewritten by every build that is not refused; every module file is "
+                     "the rendering of its own record."},
+    "C20": {"text+": " Single-member wrappers resolve as the reference on all 361 dispatch shapes; list / union builders leave the "
+                     "shared document unchanged (a component used twice is parsed twice)."},
+}
+for _p, _a in _ADD2.items():
+    _c = CLAIMED[_p]
+    for _k, _v in _a.items():
+        _c[_k[:-1]] = _c.get(_k[:-1], "") + _v
 for _p, _c in CLAIMED.items():
     if "B" in _c.get("engines", []) or "F" in _c.get("engines", []):
         _c["note"] = _c.get("note", "") + (" z3 `unsat` answers are re-decided by cvc5 as a second back end (all of them in the "
